@@ -220,6 +220,8 @@ def run_case(case):
         mark = len(log)
         want_prio = expect_priority(p, prio)
         old = [m for m in model if type(m) is type(p)]
+        before = list(model)
+        prio_before = p.priority
         try:
             world.add_processor(p, prio)
         except Exception as exc:
@@ -232,9 +234,11 @@ def run_case(case):
         if p.world is not world:
             viol('added_processor_knows_its_world', processor=repr(p), world=repr(p.world))
         owed = []
+        same_instance = any(o is p for o in old)
         for o in old:
             model[:] = [m for m in model if m is not o]
-            removed_pool.append(o)
+            if o is not p:
+                removed_pool.append(o)
             flags['replacement'] += 1
             if frame['open']:
                 frame['removed'].add(id(o))
@@ -245,6 +249,14 @@ def run_case(case):
             frame['added'].add(id(p))
         if maps(p, 'on_add'):
             owed.append(('on_add', id(p)))
+        if same_instance:
+            # the very instance that is registered is added again (with another priority): it is the processor of
+            # its type before and after, and takes the place its priority gives it as the latest addition; whether
+            # it is told on_remove / on_add on the way is not fixed by the statement
+            flags['registered_instance_added_again'] += 1
+            if p.priority == prio_before and [id(x) for x in world.processors] == [id(x) for x in before]:
+                model[:] = before       # same priority as before: keeping its place among equals is as good
+            return
         check_callbacks([r for r in log[mark:] if r[0] != 'process'], owed)
 
     def do_failing_add(p, prio):
@@ -328,6 +340,8 @@ def run_case(case):
             for t in range(case['amp'], 0, -1):
                 do_add(new(op[1]), base + (t if t % 2 else -t))
             flags['priority_walk'] += 1
+        elif op[0] == 'readd' and op[1] % 2 and model and not frame['open']:
+            do_add(model[op[1] // 2 % len(model)], op[2])
         elif op[0] == 'readd':
             if not removed_pool:
                 do_add(new(op[1]), op[2])
